@@ -18,9 +18,23 @@ static std::string blocks_json(const std::vector<std::vector<u8_t>> &bs)
 
 static std::vector<std::vector<u8_t>> drive(bool enc, int mode, std::vector<u8_t> key, std::vector<u8_t> iv20, const std::vector<std::vector<u8_t>> &ins)
 {
-  AesFactory f(key.data());
-  f.loadiv(iv20.data());
-  Aesmode *m = f.createCryMaster(enc, mode);
+  // a stream object must be self-contained once it has been created: the factory that made it is re-assigned to another
+  // key (and used), then destroyed, and the key / IV buffers it was given are overwritten - all before the first block
+  Aesmode *m;
+  {
+    std::vector<u8_t> k2 = key, iv2 = iv20, dk(16, 0x3c), div(20, 0xc3);
+    AesFactory *f = new AesFactory(k2.data());
+    f->loadiv(iv2.data());
+    m = f->createCryMaster(enc, mode);
+    *f = AesFactory(dk.data(), div.data());
+    Aesmode *decoy = f->createCryMaster(enc, mode);
+    u8_t blk[16] = {1, 2, 3, 4, 5, 6, 7, 8, 9, 10, 11, 12, 13, 14, 15, 16};
+    decoy->runcry(blk);
+    delete decoy;
+    delete f;
+    std::fill(k2.begin(), k2.end(), 0xA5);
+    std::fill(iv2.begin(), iv2.end(), 0x5A);
+  }
   std::vector<std::vector<u8_t>> outs;
   for (auto b : ins)
   {
